@@ -651,4 +651,164 @@ def showObs (n : Nat) (o : Obs) : String :=
   " log=" ++ (if o.log.isEmpty then "-" else showBits01 o.log) ++
   " obs=" ++ (if o.olog.isEmpty then "-" else "#".intercalate (o.olog.map (showRegObs n)))
 
+/-! ### Array-backed twins of the observation path (what the driver executes; wave 4)
+
+`Bits = List Nat`, so `b[x / 64]?` walks `x / 64` cells: observing one `Bitset<513>` (32832 indices, three passes on the model side and three on
+the specification side) costs ~50 million list steps.  The definitions below are the same functions on `b.toArray` (constant-time indexing); nothing
+above is changed.  `Lemmas/Bitset.lean` proves each equal to its list original (`test_eq_testA … observeReg_eq_fast`, `runCaseFast_eq`,
+`specRunCaseFast_eq`), and `Props/C12.lean` restates the driver's tie for them (`fast_path_eq`, `history_observed_fast`); the driver calls
+`runCaseFast` / `specRunCaseFast`. -/
+
+/-- `test` on the words as an array. -/
+def testA (a : Array Nat) (x : Nat) : Except Panic Bool :=
+  match a[x / 64]? with
+  | some w => .ok (decide (((w >>> (x % 64)) &&& 1) > 0))
+  | none => .error .index
+
+/-- `display` on the words as an array. -/
+def displayA (a : Array Nat) : Except Panic String :=
+  match ckU (a.size * 64) with
+  | .error e => .error e
+  | .ok n =>
+    match (List.range n).mapM (fun i => (testA a i).map digit) with
+    | .error e => .error e
+    | .ok ds => .ok (String.join ds)
+
+/-- `getW` on the words as an array. -/
+def getWA (a : Array Nat) (i : Nat) : Except Panic Nat :=
+  match a[i]? with
+  | some w => .ok w
+  | none => .error .index
+
+/-- `skipLoop` on the words as an array. -/
+def skipLoopA (d : Array Nat) (lim : Nat) : Nat → Nat → Except Panic Nat
+  | 0, _ => .error .fuel
+  | fuel + 1, idx =>
+    if idx < lim then
+      match getWA d (idx / 64) with
+      | .error e => .error e
+      | .ok w =>
+        if w >>> (idx % 64) = 0 then
+          match ckU (idx + 64) with
+          | .error e => .error e
+          | .ok s => skipLoopA d lim fuel (s &&& not64 63)
+        else .ok idx
+    else .ok idx
+
+/-- `next` on the words as an array. -/
+def nextA (d : Array Nat) (idx : Nat) : Except Panic (Option Nat × Nat) :=
+  match ckU (d.size * 64) with
+  | .error e => .error e
+  | .ok lim =>
+    match skipLoopA d lim (d.size + 1) idx with
+    | .error e => .error e
+    | .ok i =>
+      if i ≥ lim then .ok (none, i)
+      else
+        match getWA d (i / 64) with
+        | .error e => .error e
+        | .ok w =>
+          match ckU (i + tz (w >>> (i % 64))) with
+          | .error e => .error e
+          | .ok i1 =>
+            match ckU (i1 + 1) with
+            | .error e => .error e
+            | .ok i2 => .ok (some (i2 - 1), i2)
+
+/-- `collect` on the words as an array. -/
+def collectA (d : Array Nat) : Nat → Nat → Except Panic (List Nat)
+  | 0, _ => .error .fuel
+  | fuel + 1, idx =>
+    match nextA d idx with
+    | .error e => .error e
+    | .ok (none, _) => .ok []
+    | .ok (some v, idx') =>
+      match collectA d fuel idx' with
+      | .error e => .error e
+      | .ok vs => .ok (v :: vs)
+
+/-- `advance` on the words as an array. -/
+def advanceA (d : Array Nat) : Nat → Nat → Except Panic Nat
+  | 0, idx => .ok idx
+  | k + 1, idx =>
+    match nextA d idx with
+    | .error e => .error e
+    | .ok (_, idx') => advanceA d k idx'
+
+/-- `restAfter` on the words as an array. -/
+def restAfterA (d : Array Nat) (k : Nat) : Except Panic (List Nat) :=
+  match advanceA d k 0 with
+  | .error e => .error e
+  | .ok idx => collectA d (d.size * 64 + 1) idx
+
+/-- `observeReg` with the words converted to an array once (`Debug` is the same code as `Display`: rendered once). -/
+def observeRegFast (n : Nat) (b : Bits) : Except Panic RegObs :=
+  let a := b.toArray
+  match (List.range (64 * n)).mapM (testA a) with
+  | .error e => .error e
+  | .ok ts =>
+    match count b with
+    | .error e => .error e
+    | .ok c =>
+      match collectA a (a.size * 64 + 1) 0 with
+      | .error e => .error e
+      | .ok it =>
+        match displayA a with
+        | .error e => .error e
+        | .ok ds =>
+          match (probeKs it.length).mapM (fun k => (restAfterA a k).map (Probe.mk k)) with
+          | .error e => .error e
+          | .ok ps => .ok ⟨ts, c, it, ds, ds, ps⟩
+
+/-- `Spec.ofWords` with the words converted to an array once. -/
+def ofWordsA (ws : List Nat) : Spec :=
+  let a := ws.toArray
+  ⟨fun y => (a.getD (y / 64) 0).testBit (y % 64)⟩
+
+/-- `loadBits` enumerating the members through `ofWordsA`. -/
+def loadBitsFast (n : Nat) (ws : List Nat) : Except Panic Bits :=
+  setAll (new n) (Spec.members (64 * ws.length) (ofWordsA ws))
+
+/-- `step` with `observeRegFast` / `loadBitsFast` in the two places where `step` walks lists index by index. -/
+def stepFast (n : Nat) (s : St) : Op → Except Panic St
+  | .load d ws => bin1 s d d (fun _ => loadBitsFast n ws)
+  | .obs r =>
+    match getReg s.regs r with
+    | .error e => .error e
+    | .ok b =>
+      match observeRegFast n b with
+      | .error e => .error e
+      | .ok o => .ok { s with olog := s.olog ++ [o] }
+  | op => step n s op
+
+def runFast (n : Nat) (s : St) : List Op → Except Panic St
+  | [] => .ok s
+  | op :: ops =>
+    match stepFast n s op with
+    | .error e => .error e
+    | .ok s' => runFast n s' ops
+
+def observeFast (n : Nat) (s : St) : Except Panic Obs :=
+  match s.regs.mapM (observeRegFast n) with
+  | .error e => .error e
+  | .ok ros => .ok ⟨ros, s.regs.map (fun a => s.regs.map (fun b => beq a b)),
+      s.regs.map (fun a => s.regs.map (fun b => bitsNe a b)), s.log, s.olog⟩
+
+/-- `runCase` through the array-backed observation path (`runCaseFast_eq`: the same function). -/
+def runCaseFast (n k : Nat) (ops : List Op) : Except Panic Obs :=
+  match runFast n ⟨List.replicate k (new n), [], []⟩ ops with
+  | .error e => .error e
+  | .ok s => observeFast n s
+
+/-- `specStep` with `ofWordsA` for `load`. -/
+def specStepFast (s : SpecSt) : Op → SpecSt
+  | .load d ws => { s with regs := List.set s.regs d (ofWordsA ws) }
+  | op => specStep s op
+
+def specRunFast (s : SpecSt) (ops : List Op) : SpecSt := ops.foldl specStepFast s
+
+/-- `specRunCase` with array-backed `load`ed sets (`specRunCaseFast_eq`: the same function). -/
+def specRunCaseFast (n k : Nat) (ops : List Op) : Obs :=
+  specObserve n (specRunFast ⟨List.replicate k Spec.empty, [], []⟩ ops)
+
 end Rlib.Bitset
